@@ -281,6 +281,43 @@ def job_vector(cfg):
                                 out[e, a * dim + da, b * dim + db] = s
             return out
 
+        Aw = sym_array("Aw", (dim, dim), -1, 1)
+
+        def oracle_A():
+            out = np.zeros((Ne, nd, nd), dtype=object)
+            for e in range(Ne):
+                for a in range(nPe):
+                    for b in range(nPe):
+                        s_ = 0
+                        for p in range(nPg):
+                            ga, gb = dN[e, p, :, a], dN[e, p, :, b]
+                            s_ = s_ + wJ[e, p] * sum(Aw[i, k] * ga[k] * gb[i] for i in range(dim) for k in range(dim))
+                        for dd in range(dim):
+                            out[e, a * dim + dd, b * dim + dd] = s_
+            return out
+
+        formA = BiLinearForm(lambda u, v: (Aw @ u.grad).ddot(v.grad))
+        gotA = formA.Integrate_e(field)
+
+        def replay_A(env):
+            Af = np.array([[fval(env, Aw[i, k]) for k in range(dim)] for i in range(dim)])
+            m2 = get_mesh(et)
+            g2 = m2.groupElem
+            f2 = Field(g2, dim, mt)
+            gk = BiLinearForm(lambda u, v: (Af @ u.grad).ddot(v.grad)).Integrate_e(f2)
+            dNf = np.asarray(g2.Get_dN_e_pg(mt))
+            wJf = np.asarray(g2.Get_weightedJacobian_e_pg(mt))
+            ref = np.zeros_like(gk)
+            blk = np.einsum("ep,ik,epka,epib->eab", wJf, Af, dNf, dNf)
+            for dd in range(dim):
+                ref[:, dd::dim, dd::dim] = blk
+            d = float(np.abs(gk - ref).max())
+            return d > 1e-9, {"A": Af.tolist(), "max_abs_difference_vs_per_gauss_point_oracle": d}
+
+        compare_arrays(res, f"{key}: (A grad u):grad v with a non-symmetric symbolic A vs per-Gauss-point oracle", gotA, oracle_A(), c.pc_since(mark), replay_A, TOL, key=f"{key}: non-symmetric A form")
+        asmA = formA.Assemble(field)
+        asmA = asmA.a if isinstance(asmA, facade.SymMatrix) else np.asarray(asmA.toarray(), dtype=object)
+        compare_arrays(res, f"{key}: Assemble of the non-symmetric form = scatter-add", asmA, scatter_add(g, dim, gotA), c.pc_since(mark), replay_A, 0, key=f"{key}: non-symmetric A form assembly")
         forms = {
             "div": BiLinearForm(lambda u, v: Trace(Sym_Grad(u)) * Trace(Sym_Grad(v))),
             "gradgrad": BiLinearForm(lambda u, v: u.grad.ddot(v.grad)),
@@ -425,7 +462,7 @@ def main():
                     "diffusion tensor, Lame parameters, thickness, density); each element array / assembled matrix of the user form is compared with the built-in operator (same quadrature) "
                     "or a per-Gauss-point oracle for all coefficient values (tolerance queries decided by z3: QF_LRA / monomial-box relaxation).",
         bound={"scalar_forms": ["k grad u.grad v", "k u.dot(v)", "(p0+p.x) grad u.grad v", "grad u.A.grad v", "(p0+p.x) u v", "linear form (p0+p.x) v"],
-               "vector_forms": ["(2 mu eps(u)+lambda tr eps(u) I):eps(v)", "div u div v", "grad u:grad v", "grad u^T:grad v"], "elements": {"scalar": elems_s, "vector": elems_v},
+               "vector_forms": ["(A grad u):grad v with non-symmetric symbolic A", "(2 mu eps(u)+lambda tr eps(u) I):eps(v)", "div u div v", "grad u:grad v", "grad u^T:grad v"], "elements": {"scalar": elems_s, "vector": elems_v},
                "simulations": "WeakForms vs Thermal (K, C) and vs Elastic (K) on small meshes", "tolerance": "1e-10 x scale"},
         symbolic=["k, coefficient polynomial p, diffusion tensor A (dim x dim)", "lambda, mu", "thickness, density, capacity"],
         assumptions=["geometry concrete (small hand-built / gmsh meshes)", "vector fields: only gradient-based forms (Field.__call__ of a vector field is the scalar shape function by construction)",
